@@ -828,6 +828,9 @@ func runConcChild(t *testing.T, name string) {
 		}
 		x.Run()
 		x.Finish()
+		// one more crash point AFTER every client finished: death right after the last acknowledgement (an answer is only
+		// judged at a crash point that follows it, and the last operation of a scenario has no file mutation behind it)
+		verifcrash.Point("end-of-scenario")
 		verifcrash.Disarm()
 		if mode == "explore" {
 			x.Logf("K=%d", verifcrash.Count())
